@@ -976,6 +976,10 @@ static int ec_glob(char *loc, char *cmd, char *arg, char *txt)
 	free(pat);
 	if (ex_kwd(&pat, NULL))
 		return 1;
+	if (xgdep >= 7) {	/* a line has one mark bit per depth (lbuf_globset()) */
+		ex_show("global commands nested too deeply");
+		return 1;
+	}
 	if (!(re = rstr_make(pat, xic ? RE_ICASE : 0)))
 		return 1;
 	xgdep++;
